@@ -79,11 +79,11 @@ func exprSexpr(tm *t.Map, n *a.Expr, nodes *[]*a.Expr) (string, bool) {
 		*nodes = append(*nodes, n)
 	}
 	if cv := n.ConstValue(); cv != nil {
-		// constants are ideal in the model; a typed constant (`5 as base.u8`) is
-		// outside the fragment (its type decides the type of its parent).
-		if typ := n.MType(); typ != nil && !typ.IsIdeal() && !typ.IsBool() {
-			return "", false
-		}
+		// Every constant-valued node is a constant of the model (ast.Expr.Eq compares
+		// constant-valued nodes by value only). A typed constant (a named const,
+		// `5 as base.u8`) has the type of the operand it is combined with, so its own
+		// type never decides the type of its parent — except as the left operand of a
+		// shift, which is left out of the fragment below.
 		return "c " + cv.String(), true
 	}
 	op := n.Operator()
@@ -155,6 +155,11 @@ func exprSexpr(tm *t.Map, n *a.Expr, nodes *[]*a.Expr) (string, bool) {
 		nm, ok := binOpNames[op]
 		if !ok {
 			return "", false
+		}
+		if op == t.IDXBinaryShiftL || op == t.IDXBinaryShiftR || op == t.IDXBinaryTildeModShiftL {
+			if l := n.LHS().AsExpr(); l.ConstValue() != nil && l.MType() != nil && !l.MType().IsIdeal() {
+				return "", false // typed constant shifted by a run-time amount: the type of the constant matters
+			}
 		}
 		l, ok := exprSexpr(tm, n.LHS().AsExpr(), nodes)
 		if !ok {
